@@ -166,7 +166,11 @@ def join(states: list) -> Optional[State]:
     for s in states:
         for k, v in s.defs.items():
             defs[k] = defs.get(k, frozenset()) | v
-    # a name defined on only some paths keeps its partial def set (may-analysis)
+    # a LOCAL defined on only some paths keeps its partial def set (reading it on the other path is a NameError);
+    # an attribute chain stored on only some paths still has its entry value on the others: not a known definition
+    for k in [k for k in defs if "." in k]:
+        if any(k not in s.defs for s in states):
+            del defs[k]
     return State(facts, locks, defs)
 
 
